@@ -31,7 +31,8 @@ def to_cands(records, rejects):
             f, rec["log"].get(f, rec["log"].get("ch_sigalg_names") if f == "ch_sigalg_names" else None),
             rec["wire"].get(f, rec["wire"].get("ch_sigalgs") if f == "ch_sigalg_names" else rec["wire"].get("skx_sig_scheme")),
             rec["vers"], rec["suite"], rec["resumed"], facts.get("cause"))
-        case = {"id": rec["id"], "c": rec["c"], "s": rec["s"], "two": rec["second"], "down": 0}
+        case = {"id": rec["id"], "c": rec["c"], "s": rec["s"], "two": rec["second"], "down": 0,
+                "scts": rec["scts"], "skip": rec["skip"], "rwh": rec["rwh"], "rws": rec["rws"]}
         cands.append({"sig": sig_of(facts), "what": what, "case": case})
     return cands
 
@@ -68,8 +69,8 @@ def run(ctx):
     T.write_facts(ctx, binary)
 
     cases, st = T.generate(ctx, "C28", "c28_cases.ndjson")
-    if st[1] == 0:
-        raise Machinery("generator: no resumed case (vacuous)")
+    if min(st[1:4]) == 0:
+        raise Machinery("generator: no resumed / SCT / rewritten-ServerKeyExchange case (vacuous): %s" % st)
     ctx.add_samples([{k: cases[len(cases) // 2][k] for k in ("c", "s", "two")}], n=1)
     recs = run_cases(ctx, binary, cases, "gen")
 
@@ -105,7 +106,13 @@ def run(ctx):
     if missing:
         raise Machinery("vacuous coverage: log parts never populated in a completed handshake: %s" % missing)
     done = [r for r in allrecs if r["done"]]
-    cov = {"completed": len(done), "resumed": sum(1 for r in done if r["resumed"]),
+    scripted = {"sct_lists_logged": sum(1 for r in recs if "sh_scts" in r["log"]),
+                "sct_entries_unparsable": sum(1 for r in recs for e in r["log"].get("sh_scts", []) if e[1] == ""),
+                "rewritten_skx_logged": sum(1 for r in recs if r["rewritten"] and "skx_sig_name" in r["log"]),
+                "rewritten_skx_schemes": len({r["wire"].get("skx_sig_scheme") for r in recs if r["rewritten"] and "skx_sig_name" in r["log"]})}
+    if scripted["sct_lists_logged"] < 100 or scripted["sct_entries_unparsable"] < 50 or scripted["rewritten_skx_schemes"] < 20:
+        raise Machinery("vacuous coverage of the scripted-peer inputs: %s" % scripted)
+    cov = {"scripted": scripted, "completed": len(done), "resumed": sum(1 for r in done if r["resumed"]),
            "versions": sorted({r["vers"] for r in done}), "suites": len({r["suite"] for r in done}),
            "fields_compared": sum(len(r["log"]) for r in allrecs), "distinct_fields": len(populated)}
     if cov["versions"] != [10, 11, 12, 13] or not cov["resumed"]:
